@@ -40,6 +40,10 @@ def parseQuota (qs : List QuotaCfg) (ws : List String) : Option (Nat × QuotaCfg
     let cc ← (match kv ws "cc" with
               | some _ => kvOptNat ws "cc"
               | none => some none)
+    -- `sp=<n>`: the quota declares the `spillover` block (inert in this code base, see Model)
+    let _ ← (match kv ws "sp" with
+             | some _ => (kvNat ws "sp").bind fun n => if n ≥ 1 then some n else none
+             | none => some 0)
     pure (id, ⟨p, mx, win, gh, cc⟩, decide (1 ≤ mx))
 
 /-- `i:v,i:v`; later entries override earlier ones (a Go map literal filled in order). -/
@@ -71,6 +75,16 @@ def parseAllHdrs (ws : List String) : Option Hdrs := do
   | none => pure h
   | some cs => let c ← parseCosts cs; pure (c ++ h)
 
+/-- `lim=a,b,…` of the start line: the quotas named by a user flow; absent = every quota. -/
+def parseLim (ws : List String) (n : Nat) : Option (List Nat) :=
+  match kv ws "lim" with
+  | none => some (List.range n)
+  | some s =>
+    (s.splitOn ",").foldr (init := some []) fun item acc =>
+      match acc, item.toNat? with
+      | some l, some q => if q < n then some (q :: l) else none
+      | _, _ => none
+
 def parseGroups (s : String) : Option (List Nat) :=
   (s.splitOn ",").foldr (init := some []) fun item acc =>
     match acc, item.toNat? with
@@ -86,6 +100,7 @@ structure RunSt where
   level : Option Nat := none      -- `some l` once started
   badQuota : Bool := false        -- some quota line is not loadable (limit 0, percentage out of range, no parent)
   okCfg : Bool := false
+  refs : List Nat := []           -- level 2: quotas named by a user flow
   st : St := St.init
 
 def fmtAns (k : Kind) (a : Option Bool) : String :=
@@ -109,7 +124,10 @@ def runStep (s : RunSt) (line : String) : RunSt × String :=
     match kvNat ws "level", kvNat ws "t" with
     | some l, some _ =>
       if s.level.isSome || (l != 1 && l != 2) then (s, "bad-op")
-      else if !s.quotas.isEmpty && !s.badQuota && wellFormed ⟨s.quotas⟩ then ({ s with level := some l, okCfg := true }, "ok")
+      else if !s.quotas.isEmpty && !s.badQuota && wellFormed ⟨s.quotas⟩ then
+        match parseLim ws s.quotas.length with
+        | some refs => ({ s with level := some l, okCfg := true, refs := refs }, "ok")
+        | none => (s, "bad-op")
       else ({ s with level := some l, okCfg := false }, "err:cfg")
     | _, _ => (s, "bad-op")
   | "counters" :: ws =>
@@ -135,6 +153,9 @@ def runStep (s : RunSt) (line : String) : RunSt × String :=
           | some r, some h =>
             if s.quotas[q]?.isNone then (s, "err:noquota")
             else if s.level == some 2 && kind != .req then (s, "err:level")
+            else if s.level == some 2 then
+              let (st', b) := engineReq ⟨s.quotas⟩ s.refs s.st q r t h
+              ({ s with st := st' }, fmtAns .req (some b))
             else
               let (st', a) := apiStep ⟨s.quotas⟩ s.st ⟨kind, q, r, t, h⟩
               ({ s with st := st' }, fmtAns kind a)
@@ -144,6 +165,8 @@ def runStep (s : RunSt) (line : String) : RunSt × String :=
 
 structure JudgeSt where
   quotas : List QuotaCfg := []
+  level : Nat := 1
+  refs : List Nat := []
   hist : List Obs := []      -- most recent first
   bad : Option String := none
 
@@ -154,12 +177,28 @@ def judgeStep (s : JudgeSt) (op out : String) : JudgeSt :=
     match parseQuota s.quotas ws with
     | some (_, c, _) => { s with quotas := s.quotas ++ [c] }
     | none => s
+  | "start" :: ws =>
+    if out != "ok" then s else
+    match kvNat ws "level", parseLim ws s.quotas.length with
+    | some l, some refs => { s with level := l, refs := refs }
+    | _, _ => s
   | k :: ws =>
     match parseKind k with
     | none => s
     | some kind =>
       match kvNat ws "q", kvNat ws "t", kvNat ws "r", parseAllHdrs ws with
       | some q, some t, some r, some h =>
+        if s.level == 2 then
+          -- through the engine: the live system-flow increments happen first, then the limiter (if any)
+          if out != "pass" && out != "refuse" then
+            (if out.startsWith "err:" || out == "bad-op" then s
+             else { s with bad := some ("unparsable-answer:" ++ pctEnc out) })
+          else
+            let cfg : Cfg := ⟨s.quotas⟩
+            let incs := (liveOrder cfg s.refs).map (fun a => (⟨⟨.inc, a, r, t, h⟩, none⟩ : Obs))
+            let lim : List Obs := if s.refs.contains q then [⟨⟨.req, q, r, t, h⟩, some (out == "pass")⟩] else []
+            { s with hist := (incs ++ lim).reverse ++ s.hist }
+        else
         let o : Op := ⟨kind, q, r, t, h⟩
         if out == "ok" && (kind == .inc || kind == .dec) then { s with hist := ⟨o, none⟩ :: s.hist }
         else if (out == "pass" && kind == .req) || (out == "true" && kind == .allowed) then
